@@ -10,12 +10,15 @@ import (
 	"github.com/grafana/carbon-relay-ng/validate"
 )
 
-// slowRoute is a capture route whose Shutdown takes a while and which notes traffic handed to it once its shutdown has begun
+// slowRoute is a capture route whose Shutdown takes a while and which notes traffic handed to it by a Table.Dispatch call that
+// started when its shutdown had already begun. (A call that started earlier may have loaded the table from before the change and
+// may legitimately still reach the route: that metric is processed against the old table as a whole.)
 type slowRoute struct {
 	capRoute
-	state int32 // 0 running, 1 shutting down, 2 shut down
-	late  int32 // lines handed over after the shutdown began
-	n     int32
+	state    int32 // 0 running, 1 shutting down, 2 shut down
+	late     int32 // lines handed over by a dispatch that started after the shutdown began
+	n        int32
+	lateCall int32 // set by the (single) dispatching goroutine around each Table.Dispatch: the shutdown had begun before the call
 }
 
 func (r *slowRoute) Shutdown() error {
@@ -25,7 +28,7 @@ func (r *slowRoute) Shutdown() error {
 	return nil
 }
 func (r *slowRoute) Dispatch(buf []byte) {
-	if atomic.LoadInt32(&r.state) != 0 {
+	if atomic.LoadInt32(&r.lateCall) != 0 {
 		atomic.AddInt32(&r.late, 1)
 	}
 	atomic.AddInt32(&r.n, 1)
@@ -33,7 +36,7 @@ func (r *slowRoute) Dispatch(buf []byte) {
 
 // a route is deleted while traffic flows (C18): `run <routes> <victim> <delay_ms> <lines>`: DelRoute(victim) runs in a goroutine;
 // after <delay_ms> (its Shutdown takes 150 ms) <lines> metrics are dispatched.
-// -> late <n>  (lines handed to the victim after its shutdown had begun: it is neither part of the table before the change
+// -> late <n>  (lines handed to the victim by a dispatch that started after its shutdown had begun: it is neither part of the table before the change
 //    as a running route nor of the table after it)  others <count per other route>
 func init() {
 	subs["delroute"] = func(args []string) {
@@ -68,6 +71,11 @@ func init() {
 			go func() { tab.DelRoute(rs[victim].key); close(done) }()
 			time.Sleep(time.Duration(delay) * time.Millisecond)
 			for k := 0; k < nl; k++ {
+				// DelRoute publishes the new table before it shuts the route down, so a dispatch that starts once the shutdown
+				// has begun loads the new table
+				if atomic.LoadInt32(&rs[victim].state) != 0 {
+					atomic.StoreInt32(&rs[victim].lateCall, 1)
+				}
 				tab.Dispatch([]byte("m." + strconv.Itoa(k) + " 1 1500000000"))
 			}
 			<-done
